@@ -4,10 +4,16 @@ import LitexProofs.Stream.HandshakePacketizer
 
   With `source.ready = 0` no register moves (`sink_d` is loaded on `source.ready` only; IDLE rewrites `count` with the
   value it is not looking at), and every state shows either registers or the refused — hence held — sink token.
-  The flush beat of UNALIGNED-DATA-COPY (`sink_d.last`: `source.valid` high *without* `sink.valid`) shows registers
-  only since the fix of C04-packetizer-flush-padding-unstable (`If(~sink_d.last, source.data[leftover*8:].eq(sink.data))`);
-  before it the upper (padding) lanes followed the sink data lines of a producer that offers nothing — `pkUDataPre` is
-  that old expression, kept for the negative witness in `LitexProps/C04.lean`.
+  The flush beat of UNALIGNED-DATA-COPY (`sink_d.last`, not the first copy beat: `source.valid` high *without*
+  `sink.valid`) shows registers only since the fix of C04-packetizer-flush-padding-unstable
+  (`If(~sink_d.last | fsm_from_idle, source.data[leftover*8:].eq(sink.data))`); before it the upper (padding) lanes
+  followed the sink data lines of a producer that offers nothing — `pkUDataPre` is that old expression, kept for the
+  witness in `LitexProps/C04.lean`.
+  One corner remains, inside the open finding C16-packetizer-unaligned-single-beat: the FIRST copy beat of a one-beat
+  packet (`fsm_from_idle ∧ sink_d.last`) is valid through `sink_d.last` as well, and its upper lanes are the sink data
+  lines (they carry the packet's payload).  A producer that offered that beat must still be offering it (IDLE and
+  HEADER-SEND refuse it); if it has *broken* the contract and withdrawn, the lanes follow idle lines.  `FirstBeatHeld`
+  excludes exactly that: in this state, with no sink token and a stalling consumer, the sink data lines are held.
 -/
 namespace Litex.Packet
 open Litex Litex.Stream Litex.Stream.Elem
@@ -19,19 +25,24 @@ def PkCfg.pkUDataPre (c : PkCfg) (s : PkState) (d : Nat) : Nat :=
              else s.dData / 2 ^ (min ((c.B - c.L) * 8) (c.dw - 1))
   low % 2 ^ lw + 2 ^ (8 * c.L) * (d % 2 ^ (c.dw - 8 * c.L))
 
-/-- The fix changes nothing outside the flush beat. -/
-theorem pkUData_eq_pre (c : PkCfg) (s : PkState) (d : Nat) (h : s.dLast = false) :
+/-- The fix changes nothing outside the genuine flush beat. -/
+theorem pkUData_eq_pre (c : PkCfg) (s : PkState) (d : Nat) (h : s.dLast = false ∨ s.fromIdle = true) :
     c.pkUData s d = c.pkUDataPre s d := by
-  simp [PkCfg.pkUData, PkCfg.pkUDataPre, h]
+  rcases h with h | h <;> simp [PkCfg.pkUData, PkCfg.pkUDataPre, h]
 
-/-- On the flush beat the source data is a function of the registers alone. -/
-theorem pkUData_flush (c : PkCfg) (s : PkState) (d d' : Nat) (h : s.dLast = true) :
+/-- On the genuine flush beat the source data is a function of the registers alone. -/
+theorem pkUData_flush (c : PkCfg) (s : PkState) (d d' : Nat) (h : s.dLast = true) (hf : s.fromIdle = false) :
     c.pkUData s d = c.pkUData s d' := by
-  simp [PkCfg.pkUData, h]
+  simp [PkCfg.pkUData, h, hf]
 
-theorem packetizer_stepStable_all (c : PkCfg) : StepStable (packetizer c) (fun _ => True) where
+/-- First copy beat of a one-beat packet whose producer has withdrawn, consumer stalling: the sink data lines are held. -/
+def FirstBeatHeld (c : PkCfg) (s : PkState) (i i' : In HBeat) : Prop :=
+  s.st = .ucopy → s.fromIdle = true → s.dLast = true → i.valid = false → i.ready = false →
+    i'.tok.data.data % 2 ^ c.dw = i.tok.data.data % 2 ^ c.dw
+
+theorem packetizer_stepStableX (c : PkCfg) : StepStableX (packetizer c) (fun _ => True) (FirstBeatHeld c) where
   inv_step _ _ _ := trivial
-  hold s i i' _ hin := by
+  hold s i i' _ hin hx := by
     obtain ⟨st, sr, cnt, fi, dd, dl⟩ := s
     obtain ⟨iv, it, ir⟩ := i
     obtain ⟨jv, jt, jr⟩ := i'
@@ -66,8 +77,17 @@ theorem packetizer_stepStable_all (c : PkCfg) : StepStable (packetizer c) (fun _
         simp
       | false =>
         have hdl : dl = true := by simpa using hv
-        subst hdl
-        simp [PkCfg.pkUData]
+        cases hfi : fi with
+        | false =>
+          subst hdl; subst hfi
+          simp [PkCfg.pkUData]
+        | true =>
+          have hd : jt.data.data % 2 ^ c.dw = it.data.data % 2 ^ c.dw := hx rfl hfi hdl rfl rfl
+          subst hdl; subst hfi
+          simp [PkCfg.pkUData, hd]
+
+theorem packetizer_keepsContractX (c : PkCfg) : KeepsContractX (packetizer c) (FirstBeatHeld c) :=
+  keepsContractX_of_stepStable (packetizer_stepStableX c) trivial
 
 /-- In every state and for every header length a cooperative cycle delivers a beat (header word, payload beat or
     flush beat).  Note that this is *not* "the sink is served": see the negative witness in `LitexProps/C04.lean`
